@@ -70,7 +70,14 @@ def ext_models(E, w):
             'twisted.python.failure.Failure': lambda I, args, kw: E.stub('failure', {}, attrs={'value': args[0]})}
 
 
-def protocol(E, w, npending, connected=True):
+def protocol(E, w, npending, connected=True, fifo=False):
+    if fifo:
+        # serial variant: no id on the wire, pending deferreds queue up in arrival order
+        ds = [deferred(E, w, 'p%d' % k) for k in range(npending)]
+        tm = E.obj(FTM, transactions=list(ds), tid=E.int('tid_counter', 0, 65536), client=None)
+        tr = E.stub('transport', {'write': lambda data: w.written.append(data)}, attrs={'close': None})
+        framer = E.new(FRAMERS['rtu'], E.opaque('decoder'))
+        return E.obj(P, _connected=connected, framer=framer, transaction=tm, transport=tr), tm, [], ds
     tids = [E.int('pending_tid%d' % k, 0, 65536) for k in range(npending)]
     for a in range(npending):
         for b in range(a + 1, npending):
@@ -135,10 +142,10 @@ def handle_lemma(n):
     return lemma
 
 
-def lost_lemma(n):
+def lost_lemma(n, fifo=False):
     def lemma(E):
         w = W()
-        p, tm, tids, ds = protocol(E, w, n)
+        p, tm, tids, ds = protocol(E, w, n, fifo=fifo)
         E.I.cfg.ext.update(ext_models(E, w)) if E.mode == 'symbolic' else None
         # an errback may re-enter the protocol (the usual retry-on-failure handler): what it sees must already be a disconnected protocol,
         # or the request it issues is filed on a dead connection and never fails
@@ -218,5 +225,8 @@ def get_units():
         us.append(Unit('%s/execute.%dpending' % (PROP, n), execute_lemma(n), [PROP], functions=[P + '.execute', P + '._buildResponse', DTM + '.addTransaction']))
         us.append(Unit('%s/reply.%dpending' % (PROP, n), handle_lemma(n), [PROP], functions=[P + '._handleResponse', DTM + '.getTransaction']))
         us.append(Unit('%s/connectionLost.%dpending' % (PROP, n), lost_lemma(n), [PROP], functions=[P + '.connectionLost', P + '._buildResponse']))
+        from . import codec_contracts as K
+        us.append(Unit('%s/connectionLost.fifo.%dpending' % (PROP, n), lost_lemma(n, fifo=True), [PROP], contracts=(K.ComputeCRC(),),
+                       functions=[P + '.connectionLost', P + '._buildResponse', FTM + '.__iter__', FTM + '.getTransaction']))
         us.append(Unit('%s/fifo.%dpending' % (PROP, n), fifo_lemma(n), [PROP], functions=[FTM + '.getTransaction', FTM + '.addTransaction']))
     return us
